@@ -579,17 +579,75 @@ def dict_body(case):
 
 
 # ------------------------------------------------------------------------------------
+# (e) a small enumerated table of byte-level and size-level cases no text generator reaches
+
+SPECIAL = {
+    "invalid_utf8_file": b'<?xml version="1.0" encoding="UTF-8"?>\n<odML version="1.1"><author>\xff\xfe\xe4</author></odML>',
+    "truncated_utf16_file": '<?xml version="1.0" encoding="UTF-16"?><odML version="1.1"/>'.encode("utf-16")[:-1],
+    "latin1_declared_utf8_bytes": '<?xml version="1.0" encoding="ISO-8859-1"?><odML version="1.1"><author>\u00e4\u20ac</author></odML>'.encode("utf-8"),
+    "empty_file": b"",
+    "nul_bytes_file": b'<odML version="1.1">\x00\x00</odML>',
+    "bom_only": b"\xef\xbb\xbf",
+    "long_value_in_list": ('<odML version="1.1"><section><name>s</name><type>t</type><property><name>p</name>'
+                           '<value>[a,%s]</value></property></section></odML>' % ("x" * 140000)).encode(),
+    "long_single_value": ('<odML version="1.1"><section><name>s</name><type>t</type><property><name>p</name>'
+                          '<value>%s</value></property></section></odML>' % ("y" * 300000)).encode(),
+    "deep_nesting": ('<odML version="1.1">' + "<section><name>n</name><type>t</type>" * 150 +
+                     "</section>" * 150 + "</odML>").encode(),
+}
+
+
+def special_body(name, lenient, entry):
+    data = SPECIAL[name]
+    fails = []
+    d = env.fresh_dir("c16")
+    try:
+        path = os.path.join(d, "in.xml")
+        with open(path, "wb") as fh:
+            fh.write(data)
+
+        def call():
+            if entry == "file":
+                return XMLReader(ignore_errors=lenient, show_warnings=False).from_file(path)
+            if entry == "load":
+                return odml.load(path, "XML", show_warnings=False)
+            return XMLReader(ignore_errors=lenient, show_warnings=False).from_string(data)
+        res, exc = guarded(call)
+        doc = judge(res, exc, "special input %s (%s, %s)" % (name, "lenient" if lenient else "strict", entry),
+                    fails, gen="special", name=name, lenient=lenient, entry=entry)
+        if doc is not None and name.startswith("long_"):
+            vals = doc.sections[0].properties[0].values
+            if not vals or len(str(vals[-1])) < 140000:
+                fails.append(failure("reader.lost_long_value", "%s: the long value was not loaded" % name))
+        return res is not None, fails
+    finally:
+        env.rm(d)
+
+
+def run_special(ctx):
+    for name in sorted(SPECIAL):
+        for lenient in (False, True):
+            for entry in ("file", "load", "bytes"):
+                case = {"name": name, "lenient": lenient, "entry": entry}
+                ok, fails = special_body(name, lenient, entry)
+                unmatched = ctx.case(case, True, ["special:" + name, "special:" + ("document" if ok else "refused")],
+                                     fails, kind="special")
+                if unmatched:
+                    ctx.violation("special", case, unmatched)
+
 
 def plan(tier):
     if tier == "quick":
         return ([{"name": "arbitrary%d" % i, "type": "a", "n": 800} for i in range(3)] +
                 [{"name": "grammar%d" % i, "type": "b", "n": 500} for i in range(6)] +
                 [{"name": "mutation%d" % i, "type": "c", "n": 300} for i in range(3)] +
-                [{"name": "dict%d" % i, "type": "d", "n": 500} for i in range(4)])
+                [{"name": "dict%d" % i, "type": "d", "n": 500} for i in range(4)] +
+                [{"name": "special", "type": "special"}])
     return ([{"name": "arbitrary%d" % i, "type": "a", "n": 15000} for i in range(3)] +
             [{"name": "grammar%d" % i, "type": "b", "n": 8000} for i in range(5)] +
             [{"name": "mutation%d" % i, "type": "c", "n": 5000} for i in range(3)] +
             [{"name": "dict%d" % i, "type": "d", "n": 8000} for i in range(4)] +
+            [{"name": "special", "type": "special"}] +
             [{"name": "atheris", "type": "atheris", "runs": 400000}])
 
 
@@ -604,6 +662,8 @@ def run(shard, seed, ctx):
         hyp.drive(ctx, "mutation", mutation_cases(), mutation_body, shard["n"], seed)
     elif t == "d":
         hyp.drive(ctx, "dict", dict_case(), dict_body, shard["n"], seed)
+    elif t == "special":
+        run_special(ctx)
     else:
         from ..fuzz import xml_atheris
         xml_atheris.campaign(ctx, shard["runs"], seed)
@@ -618,6 +678,8 @@ def replay(kind, case):
         return mutation_body(case)[2]
     if kind == "dict":
         return dict_body(case)[2]
+    if kind == "special":
+        return special_body(case["name"], case["lenient"], case["entry"])[1]
     if kind == "atheris":
         from ..fuzz import xml_atheris
         return xml_atheris.replay(case)
